@@ -208,7 +208,8 @@ template<class T> void int_funcs() {
     if constexpr (std::is_signed<T>::value) { std::vector<T> T8; for (int d : { -11, -3, -1, 0, 1, 2, 5, 9, 11 }) T8.push_back(T(d)); bin<BV1|BVS|BSV, T>("mul", T8, T8, OP2(*)); } else bin<BV1|BVS|BSV, T>("mul", S, S, OP2(*));
     bin<BV1|BVS|BSV, T>("div", AR, D, OP2(/)); bin<BV1|BVS|BSV, T>("rem", AR, D, OP2(%));
     bin<BV1|BVS|BSV, T>("and", S, S, OP2(&)); bin<BV1|BVS|BSV, T>("or", S, S, OP2(|)); bin<BV1|BVS|BSV, T>("xor", S, S, OP2(^));
-    { std::vector<T> NN; for (T x : S) if (!(x < T(0))) NN.push_back(std::is_signed<T>::value ? T(x / T(2)) : x); bin<BV1|BVS|BSV, T>("shl", std::is_signed<T>::value ? D : S, SH, OP2(<<)); bin<BV1|BVS|BSV, T>("shr", NN, SH, OP2(>>)); bin<BVS, T>("shr", S, SH, OP2(>>)); }
+    { std::vector<T> NN; for (T x : S) if (!(x < T(0))) NN.push_back(std::is_signed<T>::value ? T(x / T(2)) : x); { std::vector<T> L3 = { T(1), T(2), T(3) }; std::vector<T> SH3; for (T c : SH) if (int(c) + 3 < int(sizeof(T) * 8)) SH3.push_back(c);   // signed: the shifted value must stay representable
+      if (std::is_signed<T>::value) bin<BV1|BVS|BSV, T>("shl", L3, SH3, OP2(<<)); else bin<BV1|BVS|BSV, T>("shl", S, SH, OP2(<<)); } bin<BV1|BVS|BSV, T>("shr", NN, SH, OP2(>>)); bin<BVS, T>("shr", S, SH, OP2(>>)); }
     un<T>("not", S, [](auto const& x) { return ~x; });
     sweep<T>(AR.size(), [&](auto lt, auto qt, size_t k) { LQ(lt, qt); auto a = win<L, T, Q>(AR, k), b = win<L, T, Q>(D, k + 2); T sc = D[(k + 1) % D.size()];
         lift<T, Q>("add", "v+=v", [](auto x, auto const& y) { x += y; return x; }, a, b); lift<T, Q>("sub", "v-=s", [](auto x, auto const& y) { x -= y; return x; }, a, sc);
